@@ -1,4 +1,92 @@
-import LdarModel.Driver.Proto
-/- driver stub: replaced by the component's real driver -/
-open LdarModel.Proto
-def main : IO Unit := runDriver (fun (_ : Unit) (_ : List String) => ((), "bad-op")) ()
+import LdarModel.Model.Holder
+import LdarModel.Driver.Json
+/-
+Driver for the holder / sensitivity-variator model (exe drv_vary).  `<op> <one JSON value>` per line.
+  upd    [current, new]                       -> dict                 updNested
+  alter  [mapping, dict, key, value]          -> dict | reject:kind   alterD   (mapping: null = generic
+                                                                      holder, object = high-level holder)
+  unpack [level, n, variations]               -> dict | reject:kind   processVariations
+  vary   {maps, sim, programs, vw, out, baseline, sens, level, n, vars}
+                                              -> [ {sim, programs, vw, out}, ... ] | reject:kind
+-/
+open LdarModel.Tree LdarModel.Json LdarModel.Holder
+
+mutual
+partial def smOf : J → Option SM
+  | .null => some .gen
+  | .obj kvs => (smlOf kvs).map .high
+  | _ => none
+partial def smlOf : KV → Option SML
+  | .nil => some .nil
+  | .cons k v t => do
+    let m ← smOf v
+    let r ← smlOf t
+    pure (.cons k m r)
+end
+
+def smlOfJ : J → Option SML
+  | .obj kvs => smlOf kvs
+  | _ => none
+
+def objOf : Option J → Option KV
+  | some (.obj k) => some k
+  | _ => none
+
+def natOf : Option J → Option Nat
+  | some (.int i) => if i < 0 then none else some i.toNat
+  | _ => none
+
+def strOf : Option J → Option String
+  | some (.str s) => some s
+  | _ => none
+
+def setOut (p : PH) : J :=
+  .obj (.cons "sim" (.obj p.sim) (.cons "programs" (.obj p.programs)
+    (.cons "vw" (.obj p.vw) (.cons "out" (.obj p.out) .nil))))
+
+def runVary (req : KV) : Option String := do
+  let mj ← objOf (req.lookup "maps")
+  let maps : Maps := {
+    vw := ← smlOfJ (← mj.lookup "vw"), out := ← smlOfJ (← mj.lookup "out"),
+    method := ← smlOfJ (← mj.lookup "method"), prog := ← smlOfJ (← mj.lookup "prog") }
+  let sim ← objOf (req.lookup "sim")
+  let programs ← objOf (req.lookup "programs")
+  let vw ← objOf (req.lookup "vw")
+  let out ← objOf (req.lookup "out")
+  let baseline ← strOf (req.lookup "baseline")
+  let sens : Option String ← match req.lookup "sens" with
+    | some (.str s) => some (some s)
+    | some .null => some none
+    | _ => none
+  let level ← strOf (req.lookup "level")
+  let n ← natOf (req.lookup "n")
+  let vars ← objOf (req.lookup "vars")
+  let base := mkPH maps sim programs vw out baseline
+  match vary maps base sens level n vars with
+  | .ok sets => pure (render (.list (JL.ofList (sets.map setOut))))
+  | .error e => pure ("reject:" ++ e.name)
+
+def step (_ : Unit) (op payload : String) : Unit × String :=
+  match LdarModel.Json.parse payload with
+  | none => ((), "bad-op")
+  | some j =>
+    match op, j with
+    | "upd", .list (.cons (.obj c) (.cons (.obj u) .nil)) => ((), render (.obj (updNested c u)))
+    | "alter", .list (.cons m (.cons (.obj d) (.cons (.str k) (.cons v .nil)))) =>
+      match smOf m with
+      | some sm => ((), match alterD sm d k v with
+          | .ok r => render (.obj r)
+          | .error e => "reject:" ++ e.name)
+      | none => ((), "bad-op")
+    | "unpack", .list (.cons (.str level) (.cons (.int n) (.cons pv .nil))) =>
+      if n < 0 then ((), "bad-op")
+      else ((), match processVariations level n.toNat pv with
+        | .ok r => render (.obj r)
+        | .error e => "reject:" ++ e.name)
+    | "vary", .obj req =>
+      match runVary req with
+      | some r => ((), r)
+      | none => ((), "bad-op")
+    | _, _ => ((), "bad-op")
+
+def main : IO Unit := runJsonDriver step ()
